@@ -31,7 +31,7 @@ type OpRec struct {
 	ErrIsConflict                 bool
 	Fault                         string
 	Gid                           uint64
-	InStopCtxDelete               bool // issued from inside a StopWithContext{DeleteKey} call of this instance
+	InStopCtxDelete               bool // a Delete, or the Get that precedes it, issued while a StopWithContext{DeleteKey} call of this object is in progress
 	WatchID                       int
 }
 
